@@ -1,36 +1,46 @@
-"""Content index row types, the draft word and the index sheet name
-(contentindexparser.py `__init__`, `_process_content_index_table`)."""
+"""Content index row types, the draft word and the index sheet name (contentindexparser.py).
+
+HOW IT READS (DESIGN §2.5a): SOURCE STRUCTURE located BY CONTENT — every method of
+`ContentIndexParser` is searched for
+* the dispatch on `<row>.type` by equality (if/elif chain, `match`, dispatch dict — literal or hoisted;
+  the one with the most alternatives is the row-type dispatch, incidental comparisons such as
+  `arg_def.type == "sheet"` have one),
+* `<row>.status == <constant>` / `<row>.status in (<constant>,)`  (the draft word),
+* `….get_sheets_by_name(<constant>)`  (the index sheet name).
+No private method name is looked up.  The row types are the distinct constants of an equality
+dispatch, i.e. a SET: emitted SORTED, compared up to order.
+"""
 import ast
 
-from ..extract_tables import _find_class, _find_func, _parse, lean_str, lean_str_list
+from .. import t1lib
+from ..extract_tables import _find_class, _parse, lean_str, lean_str_list
 
 
-def _is_attr(node, name) -> bool:
-    return isinstance(node, ast.Attribute) and node.attr == name and isinstance(node.value, ast.Name) and node.value.id == "row"
+def _row_attr(name):
+    def pred(node) -> bool:
+        return isinstance(node, ast.Attribute) and node.attr == name and isinstance(node.value, ast.Name)
+    return pred
 
 
 def tables() -> str:
-    mod = _parse("parsers/creation/contentindexparser.py")
-    cls = _find_class(mod, "ContentIndexParser")
-    fn = _find_func(cls, "_process_content_index_table")
-    types, status = [], []
-    for n in ast.walk(fn):
-        if isinstance(n, ast.Compare) and len(n.ops) == 1 and isinstance(n.ops[0], ast.Eq):
-            c = n.comparators[0]
-            if isinstance(c, ast.Constant) and isinstance(c.value, str):
-                if _is_attr(n.left, "type"):
-                    types.append((n.lineno, n.col_offset, c.value))
-                elif _is_attr(n.left, "status"):
-                    status.append(c.value)
-    types = [v for _, _, v in sorted(types)]
-    init = _find_func(cls, "__init__")
-    idx = []
-    for n in ast.walk(init):
-        if isinstance(n, ast.Call) and isinstance(n.func, ast.Attribute) and n.func.attr == "get_sheets_by_name":
-            idx.append(ast.literal_eval(n.args[0]))
+    cls = _find_class(_parse("parsers/creation/contentindexparser.py"), "ContentIndexParser")
+    live = t1lib.load("rpft.parsers.creation.contentindexparser")
+    resolve = t1lib.Resolver(live.ContentIndexParser, live)
+    types = sorted(t1lib.largest_group(t1lib.dispatch_groups(cls, _row_attr("type"), resolve), "dispatch on row.type"))
+    status = t1lib.dispatch_keys(cls, _row_attr("status"), resolve)
+    # … or a membership test `<row>.status in (<words>)`
+    status += [w for c in t1lib.container_consts(cls, _row_attr("status"), resolve, ops=(ast.In,)) for w in c if w not in status]
+    idx = set()
+    for n in t1lib.find_all(cls, lambda n: isinstance(n, ast.Call) and isinstance(n.func, ast.Attribute) and n.func.attr == "get_sheets_by_name" and n.args):
+        try:
+            v = resolve(n.args[0])
+        except KeyError:
+            continue        # a variable: the lookup of a sheet named by a row
+        if isinstance(v, str):
+            idx.add(v)
     assert len(idx) == 1 and len(status) == 1, (idx, status)
     return (
         f"def indexRowTypes : List (List Char) := {lean_str_list(types)}\n"
         f"def indexDraftWord : List Char := {lean_str(status[0])}\n"
-        f"def indexSheetName : List Char := {lean_str(idx[0])}\n"
+        f"def indexSheetName : List Char := {lean_str(idx.pop())}\n"
     )
